@@ -68,12 +68,19 @@ fn snapshot(net: &neurons::network::Network) -> Snapshot {
         .iter()
         .map(|l| neurons::verif::layer_parameters(l).into_iter().map(|t| bits(&flat(t))).collect())
         .collect();
+    // the parameter count the network reports about itself: the last integer on the last
+    // line of its Display output that mentions "parameters" (tolerant of re-wording)
     let text = format!("{}", net);
     let display_parameters = text
         .lines()
         .rev()
-        .find_map(|l| l.trim().strip_prefix("parameters:").map(|v| v.trim().to_string()))
-        .and_then(|v| v.parse::<usize>().ok());
+        .find(|l| l.to_lowercase().contains("parameters"))
+        .and_then(|l| {
+            l.split(|c: char| !c.is_ascii_digit())
+                .filter(|t| !t.is_empty())
+                .last()
+                .and_then(|t| t.parse::<usize>().ok())
+        });
     Snapshot { layers, display_parameters }
 }
 
@@ -323,6 +330,7 @@ impl Property for C10 {
             }
             match snap.display_parameters {
                 Some(n) if n == expected_count => {}
+                None => return Outcome::HarnessError("cannot find a parameter count in the network's Display output".into()),
                 other => {
                     return Outcome::Violation(Violation {
                         class: "parameter_count".into(),
